@@ -26,7 +26,7 @@ func genC09(g *gen, tier string) *Scenario {
 	sc.Cache.Listener = true
 	sc.Cache.MaxSize = int64(pick(g, 32, 50, 64, 100, 200, 500))
 	if tier == "thorough" {
-		sc.Cache.MaxSize = int64(pick(g, 32, 100, 500, 2000, 5000, 20000))
+		sc.Cache.MaxSize = int64(pick(g, 32, 100, 500, 2000, 5000))
 	}
 	sc.Cache.WriteChan, sc.Cache.WriteBuf = 64, 128
 	sc.Cache.Stripes = 1
